@@ -174,6 +174,27 @@ def subject_matches(term, subj):
         return t.op == "param" and t.a[1] == subj[1]
     if subj[0] == "re":
         return re.search(subj[1], show(t, 8)) is not None
+    if subj[0] == "opt-param":
+        # the value of an `Option` parameter after defaulting: `p.unwrap_or_else(..)` / `unwrap_or(..)`, or the merge of
+        # `match p { Some(x) => x, None => default }`
+        def payload_of(x):
+            while x.op in ("ref", "deref"):
+                x = x.a[0]
+            if x.op == "field" and x.a[1] == "0" and x.a[0].op == "downcast" and x.a[0].a[1] == "Some":
+                y = x.a[0].a[0]
+                while y.op in ("ref", "deref"):
+                    y = y.a[0]
+                return y.op == "param" and y.a[1] == subj[1]
+            return False
+
+        if t.op == "call" and B.cname(t).split("::")[-1] in ("unwrap_or_else", "unwrap_or", "unwrap_or_default") and t.a[1]:
+            y = t.a[1][0]
+            while y.op in ("ref", "deref"):
+                y = y.a[0]
+            return y.op == "param" and y.a[1] == subj[1]
+        if t.op == "phi":
+            return any(payload_of(x) for x in t.a[0])
+        return payload_of(t)
     return False
 
 
@@ -391,6 +412,41 @@ def check_min_len(ctx, rule, P, fn_key, pname, k, extra_blocks=None):
     return ctx.ob(rule, "%s/len(%s)>=%d" % (fn_key, pname, k), not bad, "every success exit of `%s` requires len(%s) >= %d%s" % (fn_key, pname, k, "" if not bad else " - bb%s reachable without the length guard" % bad), where=where(fn, bad[0]) if bad else where(fn))
 
 
+def closure_true_implies(P, clo):
+    """Literals (in the caller's terms) that hold whenever the bool closure `clo` returns true: the intersection, over
+    the ways of producing a result that is not the constant false, of the path literals and of what the result itself
+    implies.  Short-circuit `a && b` bodies are branches in MIR, so this is read off the closure's control flow."""
+    c = clo
+    while c.op in ("ref", "deref"):
+        c = c.a[0]
+    if not (c.op == "agg" and c.a[0][0] == "closure"):
+        return set()
+    g = P.fns.get(c.a[0][1]) or getattr(P, "helpers", {}).get(c.a[0][1])
+    if g is None:
+        return set()
+    gev = evaluate(g)
+    acc = None
+    for b in sorted(g.cfg.reachable):
+        if not any(st["k"] == "assign" and st["place"].get("l") == 0 and "p" not in st["place"] for st in g.blocks[b]["stmts"]):
+            continue
+        v = (gev.exit_state.get(b) or {}).get(0)
+        if v is None:
+            return set()
+        vs = strip_sites(v)
+        if vs.op == "const" and vs.a[0] == "int" and vs.a[1] == 0:
+            continue
+        lits = set(G.path_literals(gev, b, P)) | set(G.literals(G.formula(v, P), True))
+        acc = lits if acc is None else (acc & lits)
+    if not acc:
+        return set()
+    envp = T("param", 1, gev.pname(1))
+    cap = {}
+    for i, x in enumerate(c.a[1]):
+        for base in (envp, T("deref", envp)):
+            cap[T("field", base, str(i))] = strip_sites(x)
+    return subst_literals(acc, cap, P)
+
+
 def check_same_scheme_guard(ctx, rule, P, fn_key, list_param):
     """Every accumulated element is first compared with the list's first element by same_scheme (mixed => Err):
     where the element is added, `same_scheme(elem, first)` holds - in a loop body or in a fold / try_fold closure."""
@@ -426,6 +482,37 @@ def check_same_scheme_guard(ctx, rule, P, fn_key, list_param):
                         return a["mode"] != "loop" and any(s.op == "param" and s.a[0] >= 2 for s in subterms(z))
                     if (first(x) and elem(y)) or (first(y) and elem(x)):
                         good = True
+        if not good:
+            # an up-front pass over the same range: `if tail.iter().any(|s| !s.same_scheme(first)) { return Err }` (or
+            # `!all(..)`) dominates the accumulation, and the accumulation runs over exactly that range
+            for atom, pol in a["lits"]:
+                if not (atom[0] == "atom" and atom[1] == "term" and atom[2].op == "call"):
+                    continue
+                qn = B.cname(atom[2])
+                if not ((qn == "Iterator::all" and pol) or (qn == "Iterator::any" and not pol)) or len(atom[2].a[1]) != 2:
+                    continue
+                body = G.apply_closure(P, atom[2].a[1][1], [])
+                if body is None:
+                    continue
+                fm = G.formula(body, P)
+                if qn == "Iterator::any":
+                    fm = G.f_not(fm)
+                implied = set(G.literals(fm, True))
+                if qn == "Iterator::all":
+                    implied |= closure_true_implies(P, atom[2].a[1][1])
+                is_item = lambda z: any(s_.op == "param" and s_.a[0] >= 2 for s_ in subterms(z))
+                hit = False
+                for at2, pol2 in implied:
+                    if pol2 and at2[0] == "atom" and at2[1] == "term" and at2[2].op == "call" and B.cname(at2[2]).endswith("::same_scheme") and len(at2[2].a[1]) == 2:
+                        x, y = [B.peel(z) for z in at2[2].a[1]]
+                        if (first(x) and is_item(y)) or (first(y) and is_item(x)):
+                            hit = True
+                if not hit:
+                    continue
+                qcov = covers_all(strip_sites(atom[2].a[1][0]), list_param)
+                acov = covers_all(a["source"], list_param) if a.get("source") is not None else None
+                if qcov is not None and (qcov == acov or qcov == "all"):
+                    good = True
         ok = ok and good
     return ctx.ob(rule, fn_key + "/same_scheme", ok, "every accumulated element is first compared with %s[0] by same_scheme (mixed schemes => Err) [%s]" % (list_param, ", ".join(a["mode"] for a in accs)), where=where(accs[0]["fn"], accs[0]["bb"]))
 
